@@ -9,7 +9,7 @@ SPEC = {
         'fromTriplets_sorted', 'sorted_length_le', 'fromTriplets_valid', 'rt_spgen', 'rdSpGen_ok',
         # round trip, every kind
         'roundtrip_dexp', 'roundtrip_sexp', 'roundtrip_dmodel', 'roundtrip_smodel', 'roundtrip_pd', 'roundtrip_ps',
-        'roundtrip_mpol', 'polLoop_entries', 'polLoop_horizons', 'roundtrip_ppol', 'load_roundtrip',
+        'roundtrip_mpol', 'polLoop_entries', 'polLoop_horizons', 'roundtrip_ppol', 'load_roundtrip', 'roundtrip_seq',
         # every token list: success => valid
         'rdDExp_ok', 'rdSExp_ok', 'rdDModel_ok', 'rdSModel_ok', 'rdPD_ok', 'rdPS_ok', 'rdMPol_ok', 'polLoop_ok', 'rdPPol_ok',
         # every token list: valid object or failure with the destination untouched
